@@ -138,7 +138,8 @@ pub fn chk_default_reset<T: JhTy>() {
     let dc = d.cv();
     obl!(d.datalen() == 0 && d.pos() == 0, "default_counter_and_buffer_empty");
     let pending: [u8; 64] = any();
-    let (mut h, _cv, _dl) = if any::<bool>() { arbitrary_state::<T>(&pending, 0, 0) } else { arbitrary_state::<T>(&pending, 5, 0) };
+    let (mut h, _cv, _dl) = arbitrary_state::<T>(&pending, 0, 0);
+    if any::<bool>() { h.update(&pending[..5]); } // five pending bytes: nothing is compressed, the state stays arbitrary
     h.reset();
     let hc = h.cv();
     let mut ok = h.datalen() == 0 && h.pos() == 0;
